@@ -249,6 +249,15 @@ fn position_map(op: &str, n: usize, idx: Option<i32>) -> Option<Vec<usize>> {
 }
 
 pub fn c05(ctx: &mut Ctx) {
+    // twice: containers with little spare capacity, and containers that keep a large allocation (as a stack
+    // that was once deep and has been drained does)
+    c05_pass(ctx, 5);
+    c05_pass(ctx, 1200);
+    crate::model::set_spare(5);
+}
+
+fn c05_pass(ctx: &mut Ctx, spare: usize) {
+    crate::model::set_spare(spare);
     let mut real = Real::new();
     let maxd = if ctx.tier_thorough { 14 } else { 9 };
     let ops = ["DUP", "POP", "SWAP", "ROT", "YANK", "YANKDUP", "SHOVE", "FLUSH", "STACKDEPTH"];
